@@ -26,7 +26,7 @@ C reset <check 0|1> <client>*                    client = id:name:spell:qtype:sc
 C arrive <i> | C join <i> | C refuse <i> | C wake <i> | C evict <name> <qtype> <scope>
 C respell <name> <qtype> <scope> <spell>         the packed entry is re-packed with another spelling of its name
 C refresh <i> <scheme> <att> <att> <ev 0|1>     background refresh (optimistic cache) for client i's question
-C resolve <f> <udp|tcp|tcpudp> <att> <att>       att = fail | m:<id>:<q>:<resp>:<rcode>:<tc>:<ans>, q = - | name.spell.qtype
+C resolve <f> <udp|tcp|tcpudp> <att> <att>       att = fail | m:<id>:<q>:<resp>:<rcode>:<tc>:<ans>[:<ttl0>], q = - | name.spell.qtype
     -> pc=<pc of the client concerned> out=<outcome emitted by this step or -> calls=<n> cache=<entries>
 ```
 -/
@@ -152,7 +152,10 @@ def parseAtt (tok : String) : Option Ctl.Att :=
   | ["fail"] => some .fail
   | ["m", id, q, resp, rcode, tc, ans] => do
     let id ← id.toNat?; let q ← parseQ q; let rcode ← rcode.toNat?; let ans ← ans.toNat?
-    pure (.msg ⟨id, q, p01 resp, rcode, p01 tc, ans⟩)
+    pure (.msg ⟨id, q, p01 resp, rcode, p01 tc, ans, false⟩)
+  | ["m", id, q, resp, rcode, tc, ans, ttl0] => do
+    let id ← id.toNat?; let q ← parseQ q; let rcode ← rcode.toNat?; let ans ← ans.toNat?
+    pure (.msg ⟨id, q, p01 resp, rcode, p01 tc, ans, p01 ttl0⟩)
   | _ => none
 
 def parseScheme : String → Option Ctl.Scheme
